@@ -114,6 +114,83 @@ impl Check for C09 {
             .set("subset_seed", J::uint(rng.below(1 << 40)))
     }
     fn execute(&self, j: &J) -> Result<RunOut, String> {
+        // executions in which the simulator itself ran out of resources decide nothing
+        let mut out = self.execute_inner(j)?;
+        let before = out.violations.len();
+        out.violations.retain(|v| !(v.class == "pipeline-panicked" && v.detail.contains("SIMULATOR-RESOURCES")));
+        let dropped = (before - out.violations.len()) as u64;
+        out.count("probe.executions_dropped_simulator_out_of_resources", dropped);
+        Ok(out)
+    }
+    fn shrink(&self, j: &J) -> Vec<J> {
+        let mut out = vec![];
+        if j.get("mode").and_then(|m| m.as_str()) == Some("cli-threads") {
+            return out;
+        }
+        let sc = match RepScenario::from_json(j) {
+            Ok(s) => s,
+            Err(_) => return out,
+        };
+        let extras = |base: J| -> J {
+            let mut b = base;
+            for k in ["workers", "yield_gap", "max_leaf", "scheduler", "pct_depth", "sched_seed", "schedules", "subset_seed"] {
+                if let Some(v) = j.get(k) {
+                    b.put(k, v.clone());
+                }
+            }
+            b
+        };
+        if sc.replicas > 1 {
+            let mut c = sc.clone();
+            c.replicas -= 1;
+            out.push(extras(c.to_json()));
+        }
+        if sc.steps > 10 {
+            let mut c = sc.clone();
+            c.steps /= 2;
+            out.push(extras(c.to_json()));
+        }
+        for (k, v) in [("workers", 2u64), ("yield_gap", 0), ("schedules", 1)] {
+            if j.get(k).and_then(|x| x.as_u64()) != Some(v) {
+                out.push(extras(sc.to_json()).set(k, J::uint(v)));
+            }
+        }
+        if sc.group != "p1" {
+            let mut c = sc.clone();
+            c.group = "p1".into();
+            out.push(extras(c.to_json()));
+        }
+        out
+    }
+    fn components_real(&self) -> Vec<&'static str> {
+        REAL.to_vec()
+    }
+    fn components_stub(&self) -> Vec<&'static str> {
+        STUB.to_vec()
+    }
+    fn assumptions(&self) -> Vec<String> {
+        vec![
+            "rayon is replaced by sim-rayon: results say nothing about rayon's own implementation, only about what the pipeline does under any splitting, stealing, completion order and pre-emption the rayon API allows".into(),
+            "schedules are sampled (shuttle RandomScheduler / PCT), not enumerated; pre-emption points are SharedValue accesses, worker/deque operations and item boundaries".into(),
+            "the reference is the same real analyse_state run with one worker in index order - not a re-implementation of the stage recipe".into(),
+            "every 8th scenario runs the shipped binary on real rayon with 1, 1, 2, 4 and 16 threads and compares bytes; its scheduling is not controlled, so a clean result there decides nothing (sanity cross-check of the stub)".into(),
+            "the access monitor treats replica items as mutually concurrent whatever the actual schedule was: a parameter cell touched by two items with at least one write is reported".into(),
+        ]
+    }
+    fn expected_probes(&self) -> Vec<&'static str> {
+        vec![
+            "fault.F-sched(pre-emptions injected at SharedValue accesses)",
+            "probe.steals_from_back",
+            "probe.reduction_tree_depth_ge2",
+            "probe.executions_with_ge2_active_workers",
+            "fault.F-subset(items withheld from the pipeline)",
+            "probe.result_handoffs_across_tasks",
+        ]
+    }
+}
+
+impl C09 {
+    fn execute_inner(&self, j: &J) -> Result<RunOut, String> {
         if j.get("mode").and_then(|m| m.as_str()) == Some("cli-threads") {
             return exec_cli_threads(j);
         }
@@ -280,70 +357,5 @@ impl Check for C09 {
             out.violate(v);
         }
         Ok(out)
-    }
-    fn shrink(&self, j: &J) -> Vec<J> {
-        let mut out = vec![];
-        if j.get("mode").and_then(|m| m.as_str()) == Some("cli-threads") {
-            return out;
-        }
-        let sc = match RepScenario::from_json(j) {
-            Ok(s) => s,
-            Err(_) => return out,
-        };
-        let extras = |base: J| -> J {
-            let mut b = base;
-            for k in ["workers", "yield_gap", "max_leaf", "scheduler", "pct_depth", "sched_seed", "schedules", "subset_seed"] {
-                if let Some(v) = j.get(k) {
-                    b.put(k, v.clone());
-                }
-            }
-            b
-        };
-        if sc.replicas > 1 {
-            let mut c = sc.clone();
-            c.replicas -= 1;
-            out.push(extras(c.to_json()));
-        }
-        if sc.steps > 10 {
-            let mut c = sc.clone();
-            c.steps /= 2;
-            out.push(extras(c.to_json()));
-        }
-        for (k, v) in [("workers", 2u64), ("yield_gap", 0), ("schedules", 1)] {
-            if j.get(k).and_then(|x| x.as_u64()) != Some(v) {
-                out.push(extras(sc.to_json()).set(k, J::uint(v)));
-            }
-        }
-        if sc.group != "p1" {
-            let mut c = sc.clone();
-            c.group = "p1".into();
-            out.push(extras(c.to_json()));
-        }
-        out
-    }
-    fn components_real(&self) -> Vec<&'static str> {
-        REAL.to_vec()
-    }
-    fn components_stub(&self) -> Vec<&'static str> {
-        STUB.to_vec()
-    }
-    fn assumptions(&self) -> Vec<String> {
-        vec![
-            "rayon is replaced by sim-rayon: results say nothing about rayon's own implementation, only about what the pipeline does under any splitting, stealing, completion order and pre-emption the rayon API allows".into(),
-            "schedules are sampled (shuttle RandomScheduler / PCT), not enumerated; pre-emption points are SharedValue accesses, worker/deque operations and item boundaries".into(),
-            "the reference is the same real analyse_state run with one worker in index order - not a re-implementation of the stage recipe".into(),
-            "every 8th scenario runs the shipped binary on real rayon with 1, 1, 2, 4 and 16 threads and compares bytes; its scheduling is not controlled, so a clean result there decides nothing (sanity cross-check of the stub)".into(),
-            "the access monitor treats replica items as mutually concurrent whatever the actual schedule was: a parameter cell touched by two items with at least one write is reported".into(),
-        ]
-    }
-    fn expected_probes(&self) -> Vec<&'static str> {
-        vec![
-            "fault.F-sched(pre-emptions injected at SharedValue accesses)",
-            "probe.steals_from_back",
-            "probe.reduction_tree_depth_ge2",
-            "probe.executions_with_ge2_active_workers",
-            "fault.F-subset(items withheld from the pipeline)",
-            "probe.result_handoffs_across_tasks",
-        ]
     }
 }
